@@ -15,9 +15,15 @@ func init() {
 	vRegister("VH_C06_StoreResume", VH_C06_StoreResume)
 }
 
+// cipher names a cached key may be filed under: the two names of AES-GCM, none
+// (a method that yields a secret without a negotiated cipher) and a legacy cipher
+var vhKeyProtocols = []string{"AES", "AESGCM", "", "3DES"}
+
 type vhSess struct {
 	id      string
 	hasKey  bool
+	proto   string // cipher name recorded with the key
+	usable  bool   // has a key cedar can actually apply (AES-GCM)
 	key     []byte
 	authed  bool
 	user    string
@@ -38,7 +44,9 @@ func vhMakeSession(tag string, base time.Time, maxID int) *vhSess {
 	var ki *KeyInfo
 	if s.hasKey {
 		s.key = vBlob(tag+"_key", 32)
-		ki = &KeyInfo{Data: s.key, Protocol: "AES"}
+		s.proto = vPick(tag+"_proto", vhKeyProtocols)
+		s.usable = vOr(s.proto == "AES", s.proto == "AESGCM")
+		ki = &KeyInfo{Data: s.key, Protocol: s.proto}
 	}
 	s.authed = vBool(tag + "_authed")
 	s.user = vIteStr(vBool(tag+"_hasUser"), "alice@pool", "")
@@ -100,7 +108,7 @@ func VH_C06_ServerResume() {
 		}
 		sess = append(sess, s1)
 	}
-	cfg := &SecurityConfig{Authentication: SecurityRequired, Encryption: SecurityRequired, SessionCache: cache}
+	cfg := &SecurityConfig{Authentication: SecurityRequired, Encryption: SecurityLevel(vIteStr(vBool("srv_enc_required"), "REQUIRED", "OPTIONAL")), SessionCache: cache}
 	a := &Authenticator{config: cfg, stream: st}
 	req := vPeerAd("req", 4)
 	req.Delete("Command")
@@ -135,6 +143,7 @@ func VH_C06_ServerResume() {
 	vTag("hasKey", vhB2I(m.hasKey))
 	vAssert(!m.expired, "expired-session-not-resumed")
 	vAssert(m.hasKey, "keyless-session-not-resumed")
+	vAssert(m.usable, "session-whose-key-cannot-be-applied-not-resumed")
 	vAssert(st.IsEncrypted(), "resumed-connection-is-keyed")
 	if m.hasKey {
 		vAssertBytesEqual(neg.GetSharedSecret(), m.key, "installed-key-is-the-session-key")
@@ -190,7 +199,7 @@ func VH_C06_ClientResume() {
 	vAssume(!s0.expired)
 	cache.Store(s0.entry)
 	cache.MapCommand("", "<192.0.2.1:9618>", "60007", s0.id)
-	cfg := &SecurityConfig{Authentication: SecurityOptional, Encryption: SecurityOptional, SessionCache: cache, Command: 60007, PeerName: "<192.0.2.1:9618>"}
+	cfg := &SecurityConfig{Authentication: SecurityOptional, Encryption: vhLevel("cEnc"), Integrity: vhLevel("cInt"), SessionCache: cache, Command: 60007, PeerName: "<192.0.2.1:9618>"}
 	a := &Authenticator{config: cfg, stream: st}
 	resp := vPeerAd("resp", 13)
 	io_.peer = func(k int) []vhItem {
@@ -219,8 +228,10 @@ func VH_C06_ClientResume() {
 	vAssert(neg.SessionId == s0.id, "session-id")
 	vAssert(neg.User == s0.user, "cached-identity-reported")
 	vAssert(neg.Encryption == st.IsEncrypted(), "reported-encryption-equals-stream-state")
-	vAssert(st.IsEncrypted() == s0.hasKey, "keyed-iff-session-has-key")
-	if s0.hasKey {
+	vAssert(vImplies(st.IsEncrypted(), s0.usable), "keyed-only-with-a-usable-key")
+	vAssert(st.IsEncrypted(), "a-session-is-resumed-only-onto-a-keyed-stream")
+	vAssert(vImplies(vOr(cfg.Encryption == SecurityRequired, cfg.Integrity == SecurityRequired), st.IsEncrypted()), "required-encryption-resumed-stream-is-keyed")
+	if s0.usable {
 		vAssertBytesEqual(neg.GetSharedSecret(), s0.key, "installed-key-is-the-cached-key")
 	}
 	// the request names the session and the command
